@@ -838,15 +838,17 @@ def _nt_named_types(ex, env):
                    name='namedType')
 
     def near_map(ex2, self, idx):
-        """NamedTypes.getTagMapNearPosition (assumed): the types allowed at or past idx, up to the next mandatory one"""
+        """NamedTypes.getTagMapNearPosition (call reduction of contract type.namedtype::NamedTypes.getTagMapNearPosition): the
+        types allowed at or past idx, up to the next mandatory one"""
         idx = toint(idx)
         if not ex2.choose(And(idx >= 0, idx < NT_N), 'position-in-range'):
             raise _Raise(ExcV('PyAsn1Error'))
         return Obj('TagMap', {'kind': 'near', 'position': idx}, name='tagMapNearPosition')
 
     def near_type(ex2, self, tagSet, idx):
-        """NamedTypes.getPositionNearType (assumed): idx + position of the tags within the components from idx up to and
-        including the next mandatory one; PyAsn1Error if none of them has these tags"""
+        """NamedTypes.getPositionNearType (call reduction of contract type.namedtype::NamedTypes.getPositionNearType over the
+        runs built by __computeAmbiguousTypes, itself checked for declarations of up to 4 components): idx + position of the
+        tags within the components from idx up to and including the next mandatory one; PyAsn1Error if none has these tags"""
         idx = toint(idx)
         if ex2.choose(ex2.fresh('near.unknown', BoolSort()), 'tags-not-allowed-here'):
             raise _Raise(ExcV('PyAsn1Error'))
@@ -856,7 +858,8 @@ def _nt_named_types(ex, env):
         return j
 
     def by_type(ex2, self, tagSet):
-        """NamedTypes.getPositionByType (assumed): the position of the component with these tags, or PyAsn1Error"""
+        """NamedTypes.getPositionByType (call reduction of contract type.namedtype::NamedTypes.getPositionByType): the position
+        of the component with these tags, or PyAsn1Error"""
         if ex2.choose(ex2.fresh('bytype.unknown', BoolSort()), 'tags-unknown'):
             raise _Raise(ExcV('PyAsn1Error'))
         j = ex2.fresh('bytype.position', I)
